@@ -612,4 +612,29 @@ Proof.
       apply Fr5; try lia. intros T' HT'. rewrite Forall_forall in MT. apply leaves_apart; auto. intros ->. apply (N8T T HT'). exact HT.
     + exact U5.
 Qed.
+
+(* a leaf atom outside the region that is not one of the visited tables keeps all its bytes *)
+Lemma leaf_kept L : In L (mp4_flat atoms) -> ma_kids L = None -> ~ In L all_tabs ->
+  clear_of (ma_off L) (ma_len L) off (off + old) ->
+  agree f (ma_off L) f' (mv (ma_off L)) (ma_len L).
+Proof.
+  intros HL KL NL Hpos. destruct (flat_member_ok f atoms Hwf L HL) as (top & Hok). pose proof (atom_ok_len _ _ _ Hok) as LL.
+  destruct surgery_result as (_ & Fr & _). apply Fr; try lia; auto.
+  - intros An HA. rewrite Forall_forall in HAs. destruct (HAs An HA) as (HAin & (k & HAk) & _).
+    destruct (segs_disjoint _ _ _ _ _ L An Hwf HL HAin) as [E|D]; [subst; congruence|].
+    pose proof (skip_nonneg (ma_name An)).
+    assert (HsA : s_lo (seg_of An) = ma_off An /\ s_hi (seg_of An) = ma_off An + ma_hdr An + mp4_skip (ma_name An))
+      by (unfold seg_of, s_lo, s_hi; rewrite HAk; split; reflexivity).
+    assert (HsL : s_lo (seg_of L) = ma_off L /\ s_hi (seg_of L) = ma_off L + ma_len L)
+      by (unfold seg_of, s_lo, s_hi; rewrite KL; split; reflexivity).
+    unfold clear_of. lia.
+  - intros T HT. pose proof (member_facts T HT) as (HTin & _ & _ & _ & LT & KT).
+    assert (Hne : L <> T) by (intros ->; contradiction).
+    destruct (segs_disjoint _ _ _ _ _ L T Hwf HL HTin) as [E|D]; [contradiction|].
+    assert (HsT : s_lo (seg_of T) = ma_off T /\ s_hi (seg_of T) = ma_off T + ma_len T)
+      by (unfold seg_of, s_lo, s_hi; rewrite KT; split; reflexivity).
+    assert (HsL : s_lo (seg_of L) = ma_off L /\ s_hi (seg_of L) = ma_off L + ma_len L)
+      by (unfold seg_of, s_lo, s_hi; rewrite KL; split; reflexivity).
+    unfold clear_of. lia.
+Qed.
 End Surgery.
